@@ -461,7 +461,10 @@ var c11Bridge = core.Mon(c11, "bridge", func(w *core.W, c *BridgeCase) {
 		switch {
 		case !c.Sig.Variadic:
 			decision, why = "reject", "spread on a non-variadic function"
-		case len(args) != n:
+		case len(args) < n:
+			// f(a, xs...) spreads over the variadic tail only: the fixed parameters must be written out
+			decision, why = "reject", "spread call does not supply the fixed parameters"
+		case len(args) > n:
 			decision = "unspec"
 		case len(args) == 0 || args[len(args)-1].K != "arr":
 			if len(args) > 0 && args[len(args)-1].K == "null" {
